@@ -154,6 +154,72 @@ def limiter_body(body):
 ALLOWED_CALLS = {'abs', 'absolute', 'minimum', 'maximum'}
 
 
+def local_helpers(fi):
+    """helper functions defined directly in fluxLimiter's body (outside the if-chain) that consist of constant assignments and one
+    return expression: a limiter may be written through such a helper (a shared kappa-scheme, say)"""
+    out = {}
+    for st in fi.node.body:
+        if isinstance(st, ast.FunctionDef):
+            out[st.name] = st
+    return out
+
+
+def inline_helpers(ret, helpers, depth=0):
+    """replace every call of a local helper by its return expression with the arguments substituted (positional, keyword and
+    default arguments; constant local assignments of the helper substituted as well)"""
+    import copy as _copy
+    if depth > 4:
+        raise AnalysisError("local limiter helpers nested deeper than 4 calls")
+
+    class Sub(ast.NodeTransformer):
+        def __init__(self, mp):
+            self.mp = mp
+
+        def visit_Name(self, n):
+            if isinstance(n.ctx, ast.Load) and n.id in self.mp:
+                return _copy.deepcopy(self.mp[n.id])
+            return n
+
+    class Inl(ast.NodeTransformer):
+        def visit_Call(self, n):
+            self.generic_visit(n)
+            if isinstance(n.func, ast.Name) and n.func.id in helpers:
+                h = helpers[n.func.id]
+                a = h.args
+                if a.vararg or a.kwarg or a.kwonlyargs or a.posonlyargs:
+                    raise AnalysisError(f"local helper {h.name}: only plain parameters are modelled")
+                names = [x.arg for x in a.args]
+                mp = {}
+                for nm, d in zip(names[len(names) - len(a.defaults):], a.defaults):
+                    mp[nm] = d
+                for nm, v in zip(names, n.args):
+                    mp[nm] = v
+                for kw in n.keywords:
+                    if kw.arg not in names:
+                        raise AnalysisError(f"local helper {h.name}: unknown keyword {kw.arg}")
+                    mp[kw.arg] = kw.value
+                if set(mp) != set(names):
+                    raise AnalysisError(f"local helper {h.name}: call does not bind every parameter")
+                r = None
+                for st in h.body:
+                    if isinstance(st, ast.Expr) and isinstance(st.value, ast.Constant):
+                        continue
+                    if isinstance(st, ast.Assign) and len(st.targets) == 1 and isinstance(st.targets[0], ast.Name):
+                        mp[st.targets[0].id] = Sub(dict(mp)).visit(_copy.deepcopy(st.value))
+                        continue
+                    if isinstance(st, ast.Return) and st.value is not None and r is None:
+                        r = Sub(dict(mp)).visit(_copy.deepcopy(st.value))
+                        continue
+                    raise AnalysisError(f"local helper {h.name}: statement {type(st).__name__} is not modelled (line {st.lineno})")
+                if r is None:
+                    raise AnalysisError(f"local helper {h.name} has no return expression")
+                return inline_helpers(r, helpers, depth + 1)
+            return n
+    out = Inl().visit(_copy.deepcopy(ret))
+    ast.fix_missing_locations(out)
+    return out
+
+
 def elementwise_only(ret):
     bad = []
     for n in ast.walk(ret):
@@ -234,6 +300,7 @@ def jobs(tier):
 
 def global_rules(sm, rep, tier):
     fi, branches, eps = extract_branches(sm)
+    helpers = local_helpers(fi)
     rep.unit('utilities.fluxLimiter')
     loc0 = fi.loc()
     ref = reference()
@@ -249,6 +316,10 @@ def global_rules(sm, rep, tier):
         env = dict(env)
         env['eps'] = eps
         cons = f"utilities.fluxLimiter[{name}]"
+        ret = inline_helpers(ret, helpers)
+        unknown = [ast.unparse(n.func) for n in ast.walk(ret) if isinstance(n, ast.Call) and not (isinstance(n.func, ast.Attribute) and isinstance(n.func.value, ast.Name) and n.func.value.id in ('np', 'numpy'))]
+        if unknown:
+            raise AnalysisError(f"fluxLimiter[{name}] calls {unknown[0]}, which is neither numpy nor a local helper of fluxLimiter: not analysable")
         bad = elementwise_only(ret)
         rep.ob('F3', cons, not bad, f"non-elementwise constructs: {bad}" if bad else "arithmetic, comparisons, np.abs/minimum/maximum only", loc)
         try:
